@@ -136,6 +136,19 @@ fn scenario(seed: u64, rep: &Report, dedicated: bool) -> Result<(), String> {
                         }
                         model.insert(name.clone(), t);
                     }
+                    6 if rng.chance(1, 3) => {
+                        // a statement the SERVER refuses at Parse: every attempt, by any client under
+                        // any name, must get the server's error (never a ParseComplete made up by the
+                        // pooler for a statement that does not exist on the server)
+                        let bad_name = format!("bad_{}_{}", cid, rng.below(2));
+                        let mut b = proto::parse(&bad_name, "SELECT 1 /*v q=BAD perr */", &[]);
+                        b.extend(proto::sync());
+                        c.send(&b).map_err(|e| e.to_string())?;
+                        let r = c.read_until_ready(10_000).map_err(|(m, e)| format!("{} refused parse: {:?} {}", cid, e, summarize(&m)))?;
+                        if proto::type_string(&r) != "EZ" {
+                            problems.push(format!("Refused parse: Parse of a statement the server refuses was answered {} (a direct connection answers E Z)", summarize(&r)));
+                        }
+                    }
                     3..=6 => {
                         // Bind + Execute a known name (own batch => own transaction => any server connection)
                         if let Some(t) = model.get(&name).cloned() {
@@ -327,7 +340,7 @@ fn scenario(seed: u64, rep: &Report, dedicated: bool) -> Result<(), String> {
     }
     let cfgname = format!("cache={} pool_size={}", cache, pool_size);
     for f in client_failures {
-        let kind = if f.contains("client aborted") { "client_connection_broken" } else if f.starts_with("Describe") { "describe_wrong" } else if f.starts_with("Close") { "close_wrong" } else if f.starts_with("Set:") { "set_outside_transaction_wrong" } else if f.starts_with("Portal cycle") { "named_portal_cycle_wrong" } else { "parse_reply_wrong" };
+        let kind = if f.contains("client aborted") { "client_connection_broken" } else if f.starts_with("Describe") { "describe_wrong" } else if f.starts_with("Close") { "close_wrong" } else if f.starts_with("Refused parse") { "refused_parse_answered_wrongly" } else if f.starts_with("Set:") { "set_outside_transaction_wrong" } else if f.starts_with("Portal cycle") { "named_portal_cycle_wrong" } else { "parse_reply_wrong" };
         rep.violation(&format!("C08|{}|cache_size_class={}", kind, if cache == 1 { "1" } else if cache < 8 { "small" } else { "large" }), &format!("{} ({})", f, cfgname), json!({"seed": seed, "cfg": cfgname, "log_tail": cell.pg().log_tail(8)}));
     }
     // ---- mock side: what ran for each portal, name -> (text, types) bindings, errors
